@@ -382,6 +382,13 @@ def finish(prop, total, tier, seed, t0, known, jobs=None, replay_mode=False):
                              message=c2.findings[bucket]["message"] if bucket in c2.findings else f["message"])
             except Exception as e:  # shrinking is best effort
                 sys.stderr.write("note: shrinking %s failed: %r\n" % (bucket, e))
+        if hasattr(prop, "minimize") and not replay_mode:
+            try:
+                small = prop.minimize(f["case"], bucket)
+                if case_size(small) < f["size"]:
+                    f = dict(f, case=small, size=case_size(small))
+            except Exception as e:
+                sys.stderr.write("note: minimising %s failed: %r\n" % (bucket, e))
         path = write_replay(prop.ID, bucket, f, seed, tier)
         lines.append("VIOLATION property=%s replay=%s" % (prop.ID, path))
         sys.stderr.write("  bucket=%s hits=%d: %s\n" % (bucket, total.bucket_hits[bucket], f["message"][:500]))
